@@ -136,6 +136,7 @@ type c16Conn struct {
 	End        string    `json:"end"` // stay | stall | disconnect | close | reset | silent | ping
 	EndUs      int64     `json:"end_us"`
 	NoAck      bool      `json:"no_ack"`
+	Pipeline   bool      `json:"pipeline"` // the first step is sent right behind CONNECT, before CONNACK is read
 	SegC2S     []int     `json:"seg_c2s"`
 	DelayC2SUs []int64   `json:"delay_c2s_us"`
 	DelayS2CUs []int64   `json:"delay_s2c_us"`
@@ -246,7 +247,21 @@ func c16Gen(rng *sim.Rand, tier string) interface{} {
 		}
 		return out
 	}
-	if rng.Bool(0.12) {
+	if rng.Bool(0.1) {
+		// recipe: plain reconnect from the stored session (no takeover): connect,
+		// (un)subscribe back-to-back, orderly end, later clean=0 reconnect
+		sc.Store = c16StoreF{}
+		c0 := c16Conn{Clean: false, KeepAlive: uint16(rng.Pick(0, 0, 5)), End: rng.PickStr("disconnect", "close", "reset"), EndUs: int64(rng.Pick(1013000, 3001000))}
+		c0.Steps = steps(rng.Pick(1, 1, 2, 3))
+		c0.Pipeline = rng.Bool(0.6)
+		for i := range c0.Steps {
+			c0.Steps[i].GapUs = int64(rng.Pick(0, 0, 101))
+			c0.Steps[i].NoWait = false
+		}
+		sc.Conns = append(sc.Conns, c0)
+		c1 := c16Conn{Clean: false, GapUs: int64(rng.Pick(4001000, 12007000)), End: "stay", Steps: steps(rng.Pick(0, 0, 1))}
+		sc.Conns = append(sc.Conns, c1)
+	} else if rng.Bool(0.12) {
 		// recipe: a subscriber that stops reading while QoS1 messages are pending
 		// (tiny socket buffer), taken over much later
 		sc.AllQoS1 = true
@@ -269,6 +284,7 @@ func c16Gen(rng *sim.Rand, tier string) interface{} {
 			c.Steps = steps(rng.Pick(0, 1, 1, 2, 3))
 			c.EndUs = int64(endGaps[rng.Intn(len(endGaps))])
 			c.NoAck = rng.Bool(0.15)
+			c.Pipeline = rng.Bool(0.2)
 			if last && rng.Bool(0.92) {
 				c.End = "stay"
 				c.KeepAlive = uint16(rng.Pick(0, 0, 3600))
@@ -395,8 +411,10 @@ type c16Store struct {
 	lossy   bool
 	getHit  map[string]int
 	delLog  []string // deletes of the contested key: who/when
+	putLog  []string // puts of the contested key: when/topics
 	admin   bool     // the harness's admin delete is in progress
 	delErrs int
+	quiet   bool // the run is being wound down
 }
 
 var _ storage = (*c16Store)(nil)
@@ -467,6 +485,16 @@ func (s *c16Store) put(key, value string) error {
 		return c16StoreErr{"put"}
 	}
 	s.data[key] = value
+	if key == sessionStoreKey(c16ID) {
+		topics := value
+		if i := strings.Index(value, "topics:"); i >= 0 {
+			topics = value[i:]
+			if j := strings.Index(topics, "clientID:"); j >= 0 {
+				topics = topics[:j]
+			}
+		}
+		s.putLog = append(s.putLog, fmt.Sprintf("@%v %s", s.r.Now(), strings.Join(strings.Fields(topics), " ")))
+	}
 	return nil
 }
 
@@ -487,8 +515,9 @@ func (s *c16Store) delete(key string) error {
 		if s.admin {
 			who = "admin"
 		}
-		s.delLog = append(s.delLog, fmt.Sprintf("%s@%v(existed=%v)", who, s.r.Now(), existed))
-		s.r.Eventf("store delete %s by %s existed=%v", key, who, existed)
+		if !s.quiet {
+			s.delLog = append(s.delLog, fmt.Sprintf("%s@%v(existed=%v)", who, s.r.Now(), existed))
+		}
 	}
 	// etcd semantics: only the deletion of an existing key produces an event
 	if existed && s.watched {
@@ -557,6 +586,9 @@ type c16Cli struct {
 	inflight       map[uint16]*c16Op
 	nextID         uint16
 	fromDB         bool
+	prev           *c16Cli         // the connection that was current when this one sent CONNECT
+	hits0          int             // store hits of the id's key before CONNECT
+	skipSteps      int             // steps already sent by connect (pipelined)
 	takenOver      bool            // a later connection was acknowledged while this one's handler was still running
 	subs           map[string]byte // bystander's own acknowledged subscriptions
 	tick           time.Duration   // odd nanoseconds slept before every write (tie breaking, see send)
@@ -616,6 +648,11 @@ func (h *c16H) goTask(name string, f func()) {
 }
 
 func (h *c16H) logf(format string, a ...interface{}) {
+	if h.closing {
+		// what the leftovers of a run do while it is wound down is not part of
+		// its history (and not reproducible once gating has ended)
+		return
+	}
 	s := fmt.Sprintf(format, a...)
 	h.r.Eventf("%s", s)
 	if len(h.hist) < 400 {
@@ -630,7 +667,7 @@ func (h *c16H) history() string {
 func (h *c16H) describe() string {
 	var sb strings.Builder
 	for k, c := range h.sc.Conns {
-		fmt.Fprintf(&sb, "x%d{clean=%v ka=%d gap=%dus end=%s@%dus", k, c.Clean, c.KeepAlive, c.GapUs, c.End, c.EndUs)
+		fmt.Fprintf(&sb, "x%d{clean=%v ka=%d gap=%dus end=%s@%dus pipeline=%v", k, c.Clean, c.KeepAlive, c.GapUs, c.End, c.EndUs, c.Pipeline)
 		for _, s := range c.Steps {
 			fmt.Fprintf(&sb, " %s%v", s.Op, s.Filters)
 		}
@@ -789,7 +826,9 @@ func c16Blocked() string {
 func (h *c16H) waitFor(c *c16Cli, what string, cond func() bool) bool {
 	deadline := time.Now().Add(c16Timeout)
 	for !cond() {
-		if c.dead() || h.stop() {
+		// a superseded connection gets no answers any more (its write loop
+		// ended with the takeover) and is not closed by the broker either
+		if c.dead() || c.superseded || h.stop() {
 			return cond()
 		}
 		ch := c.note
@@ -812,6 +851,10 @@ func (h *c16H) waitFor(c *c16Cli, what string, cond func() bool) bool {
 // waitH waits on the harness-wide notification channel.
 func (h *c16H) waitH(what string, cond func() bool) bool {
 	deadline := time.Now().Add(c16Timeout)
+	if what == "script-end" {
+		// a sum of waits that have time-outs of their own
+		deadline = time.Now().Add(12 * time.Hour)
+	}
 	for !cond() {
 		if h.stuck || h.r.Aborted() {
 			return false
@@ -938,6 +981,9 @@ func (c *c16Cli) reader() {
 		switch p := p.(type) {
 		case *packets.ConnackPacket:
 			c.connack = p
+			if p.ReturnCode == packets.Accepted && !c.connected {
+				h.onConnack(c)
+			}
 		case *packets.SubackPacket:
 			c.onAck(p.MessageID)
 		case *packets.UnsubackPacket:
@@ -1034,9 +1080,20 @@ func (h *c16H) connect(c *c16Cli) bool {
 	p.Keepalive = c.spec.KeepAlive
 	c.connectSeq = h.r.Seq()
 	h.logf("%s: CONNECT clean=%v keepalive=%d (conn %d)", c.name, c.spec.Clean, c.spec.KeepAlive, c.cid)
+	c.hits0 = h.st.getHit[sessionStoreKey(c.id)]
 	if err := c.send(p); err != nil {
 		h.logf("%s: CONNECT write failed: %v", c.name, err)
 		return false
+	}
+	if c.spec.Pipeline && len(c.spec.Steps) > 0 && c.idx >= 0 {
+		// MQTT allows a client to send further packets right behind CONNECT
+		st := c.spec.Steps[0]
+		st.NoWait = true
+		c.skipSteps = 1
+		h.r.Probe("c16.pipelined_first_step")
+		if !h.doStep(c, st) {
+			return false
+		}
 	}
 	if !h.waitFor(c, "connack", func() bool { return c.connack != nil }) {
 		if c.closedByServer && !h.stop() {
@@ -1048,9 +1105,61 @@ func (h *c16H) connect(c *c16Cli) bool {
 		h.r.Violate("C16.connect-refused", "%s: CONNACK return code %d\n%s", c.name, c.connack.ReturnCode, h.history())
 		return false
 	}
+	if c.connected && c.spec.KeepAlive > 0 && c.spec.KeepAlive < 3600 {
+		// The keep-alive deadline that the broker armed while it handled CONNECT
+		// can coincide with a tick of the session's resend ticker created in the
+		// same stretch (both are "CONNECT instant + stalls of round length +
+		// a multiple of 100 ms"), and two production goroutines woken by timers
+		// at one instant run in an irreproducible order. A keep-alive client
+		// pings: this packet arrives at an instant with another nanosecond
+		// residue and re-arms the deadline from there.
+		c.send(packets.NewControlPacket(packets.Pingreq))
+	}
+	return c.connected
+}
+
+// onConnack runs in the reader at the moment an accepting CONNACK is read, so
+// that acknowledgements read right behind it already find the connection
+// current.
+func (h *c16H) onConnack(c *c16Cli) {
 	c.connected = true
 	c.connackSeq = h.r.Seq()
-	return true
+	if c.idx < 0 {
+		return
+	}
+	prev := c.prev
+	c.fromDB = h.st.getHit[sessionStoreKey(c.id)] > c.hits0
+	takeover := false
+	if prev != nil {
+		if s := h.srv[prev.cid]; s != nil && !s.returned {
+			takeover = true
+		}
+	}
+	restored := h.model.connack(c.spec.Clean, h.st.lossy)
+	h.cur = c
+	h.logf("%s: CONNACK takeover=%v fromDB=%v model: persistent=%v subs=%v amb=%v", c.name, takeover, c.fromDB, h.model.persistent, h.model.firm(), c16Keys(h.model.amb))
+	if takeover {
+		prev.takenOver = true
+		h.takeovers++
+		h.r.Probe("c16.takeover")
+		if prev.ended {
+			h.r.Probe("c16.takeover_of_half_dead_connection")
+		} else {
+			h.r.Probe("c16.takeover_of_live_connection")
+		}
+	} else if prev != nil {
+		h.r.Probe("c16.reconnect_after_teardown")
+	}
+	if restored {
+		h.restores++
+		h.r.Probe("c16.clean0_reconnect_with_previous_subscriptions")
+		if c.fromDB {
+			h.r.Probe("c16.session_restored_from_store")
+		}
+	}
+	if prev != nil && prev.spec.Clean != c.spec.Clean {
+		h.r.Probe("c16.clean_flag_flip")
+	}
 }
 
 func (h *c16H) scriptDone() {
@@ -1060,7 +1169,6 @@ func (h *c16H) scriptDone() {
 
 func (h *c16H) driver() {
 	defer h.scriptDone()
-	key := sessionStoreKey(c16ID)
 	for k := range h.sc.Conns {
 		spec := h.sc.Conns[k]
 		h.r.Sleep(c16Us(spec.GapUs))
@@ -1077,42 +1185,11 @@ func (h *c16H) driver() {
 				h.r.Probe("c16.superseded_with_operation_in_flight")
 			}
 			h.ambInflight(prev)
+			prev.bcast()
 		}
-		hits := h.st.getHit[key]
+		c.prev = prev
 		if !h.connect(c) {
 			continue
-		}
-		c.fromDB = h.st.getHit[key] > hits
-		takeover := false
-		if prev != nil {
-			if s := h.srv[prev.cid]; s != nil && !s.returned {
-				takeover = true
-			}
-		}
-		restored := h.model.connack(spec.Clean, h.st.lossy)
-		h.cur = c
-		h.logf("%s: CONNACK takeover=%v fromDB=%v model: persistent=%v subs=%v amb=%v", c.name, takeover, c.fromDB, h.model.persistent, h.model.firm(), c16Keys(h.model.amb))
-		if takeover {
-			prev.takenOver = true
-			h.takeovers++
-			h.r.Probe("c16.takeover")
-			if prev.ended {
-				h.r.Probe("c16.takeover_of_half_dead_connection")
-			} else {
-				h.r.Probe("c16.takeover_of_live_connection")
-			}
-		} else if prev != nil {
-			h.r.Probe("c16.reconnect_after_teardown")
-		}
-		if restored {
-			h.restores++
-			h.r.Probe("c16.clean0_reconnect_with_previous_subscriptions")
-			if c.fromDB {
-				h.r.Probe("c16.session_restored_from_store")
-			}
-		}
-		if prev != nil && prev.spec.Clean != spec.Clean {
-			h.r.Probe("c16.clean_flag_flip")
 		}
 		h.pending++
 		h.goTask(c.name, func() {
@@ -1193,7 +1270,10 @@ func (h *c16H) doStep(c *c16Cli, s c16Step) bool {
 }
 
 func (h *c16H) runSteps(c *c16Cli) {
-	for _, s := range c.spec.Steps {
+	for i, s := range c.spec.Steps {
+		if i < c.skipSteps {
+			continue
+		}
 		h.r.Sleep(c16Us(s.GapUs))
 		if c.superseded || c.dead() || h.stop() {
 			break
@@ -1309,9 +1389,19 @@ func (h *c16H) serve(conn net.Conn) {
 		h.srv[sc.ID] = st
 	}
 	defer func() {
-		if p := recover(); p != nil {
+		p := recover()
+		stack := ""
+		if p != nil {
+			stack = c16Stack()
+		}
+		// The handler may have been woken by a timer (keep-alive deadline) at the
+		// very instant at which other goroutines of the broker were woken by
+		// theirs: pass a gate before recording anything, so that the recorded
+		// history does not depend on the order in which the runtime ran them.
+		h.r.Yield("c16.handler-returned")
+		if p != nil {
 			if !h.closing {
-				msg := fmt.Sprintf("conn %d: %v\n%s", st.cid, p, c16Stack())
+				msg := fmt.Sprintf("conn %d: %v\n%s", st.cid, p, stack)
 				h.panics = append(h.panics, msg)
 				h.logf("handleConn PANIC %v", p)
 				cls := "C16.panic.handleConn"
@@ -1525,8 +1615,8 @@ func (h *c16H) final() {
 	// (the white-box reads below pass gates, a teardown may happen meanwhile)
 	ctx := func() string {
 		after, pendingOld := h.supersededTeardownAfter(S)
-		return fmt.Sprintf("survivor %s (clean=%v, session restored from store=%v); superseded connections torn down after its CONNECT: %v, never torn down: %v; a superseded connection was torn down during the run: %v; store deletes of its key: %v",
-			S.name, S.spec.Clean, S.fromDB, after, pendingOld, h.takeoverTeardown(), h.st.delLog)
+		return fmt.Sprintf("survivor %s (clean=%v, session restored from store=%v); superseded connections torn down after its CONNECT: %v, never torn down: %v; a superseded connection was torn down during the run: %v; store deletes of its key: %v; store puts of its key: %v",
+			S.name, S.spec.Clean, S.fromDB, after, pendingOld, h.takeoverTeardown(), h.st.delLog, h.st.putLog)
 	}
 	if after, pendingOld := h.supersededTeardownAfter(S); len(after) > 0 {
 		r.Probe("c16.superseded_teardown_after_survivor_connect")
@@ -1600,14 +1690,20 @@ func (h *c16H) final() {
 	lostClass := func(f string, blackbox bool) string {
 		inh := m.inherited[f]
 		switch {
-		case !sessHas(f) && inh && h.takeoverTeardown() && h.brokerDeleted():
-			return "C16.takeover.stored-session-deleted"
 		case !sessHas(f) && inh && h.sc.Store.Async:
 			return "C16.reconnect.subscription-not-restored.store-lag"
+		case !sessHas(f) && inh && h.takeoverTeardown() && h.brokerDeleted():
+			return "C16.takeover.stored-session-deleted"
 		case !sessHas(f) && inh && h.supInflight:
 			// a packet of the superseded connection was processed after the
 			// takeover and stored its old session over the successor's
 			return "C16.takeover.old-connection-overwrote-session"
+		case !sessHas(f) && inh && !h.st.lossy:
+			// no storage latency, no storage error, no deletion, no packet of a
+			// superseded connection: the stored session itself was stale (the
+			// snapshots of Session.store travel in goroutines of their own and
+			// may reach the storage in another order than they were taken)
+			return "C16.stored-session-stale"
 		case !sessHas(f) && inh:
 			return "C16.reconnect.subscription-not-restored" + lag()
 		case h.takeoverTeardown() && blackbox:
@@ -1681,6 +1777,9 @@ func (h *c16H) final() {
 			cls := "C16.discarded-session-still-delivers"
 			if inSession {
 				cls = "C16.reconnect.stale-session-restored" + lag()
+				if !h.sc.Store.Async && !h.st.lossy && !h.supInflight {
+					cls = "C16.stored-session-stale"
+				}
 			}
 			r.Violate(cls, "probe %s on %q was delivered to the surviving connection whose session must not have a matching filter (model %v, ambiguous %v; trie has %v for %s, matching %v, its session object has %v). %s\n%s",
 				pl[t], t, m.firm(), c16Keys(m.amb), h.trieFilters(c16ID), c16ID, stale, sessTopics(), ctx(), h.history())
@@ -1930,6 +2029,7 @@ func c16Exec(r *sim.Run, sci interface{}) {
 
 	// wind down
 	h.closing = true
+	h.st.quiet = true
 	r.SetInvariant(nil)
 	for _, cl := range h.seenCl {
 		if cl.session != nil {
@@ -1989,6 +2089,9 @@ func c16Exec(r *sim.Run, sci interface{}) {
 	}
 	if h.live == 0 {
 		r.WaitTasks()
+	}
+	if os.Getenv("C16_TRACE") != "" {
+		fmt.Fprintf(os.Stderr, "C16_TRACE end step=%d now=%v hist=%d live=%d seq=%d stalled=%v\n", r.Step(), r.Now(), len(h.hist), h.live, r.Seq(), r.StalledFor())
 	}
 }
 
